@@ -28,6 +28,9 @@ def run(ctx):
         "steps.")
     ctx.not_decided = "content equality modulo line endings (depends on C17 decoders), the server's own atomicity."
     rename_rules(ctx, R)
+    # the existence tests and the copied content come from the listing / script decoders (D1, D2, D4, D5 of C17)
+    from .c17 import decoder_rules
+    decoder_rules(ctx, R)
 
 
 def rename_rules(ctx, R, only=None):
